@@ -6,7 +6,9 @@
 //	                  valid token+cookie, so that only the origin decision is observed;
 //	A (harness_a.go)  explicit-state BFS over operation histories of three clients against the real
 //	                  middleware on an injected storage with a harness-owned virtual clock and at
-//	                  most one injected storage failure, compared with a reference token model.
+//	                  most one injected storage failure, compared with a reference token model;
+//	                  configurations: extractors x backends x single-use x faults, plus the
+//	                  redundant / conflicting Config fields dimension (harness_a_cfg.go).
 package main
 
 import (
@@ -114,6 +116,12 @@ func main() {
 				core.Fatal("vacuous harness A: no rejected request of class %s", need)
 			}
 		}
+		// the redundant / conflicting configurations must exercise the same mechanisms
+		for _, need := range []string{"A.rcf.agree_pass", "A.rcf.agree_reject.token-cookie-mismatch", "A.rcf.agree_reject.not-issued", "A.rcf.agree_reject.expired", "A.rcf.agree_reject.consumed", "A.rcf.agree_reject.deleted"} {
+			if r.P.Counters[need] == 0 {
+				core.Fatal("vacuous harness A: counter %s is 0 in the redundant/conflicting-field configurations", need)
+			}
+		}
 	}
 
 	cov := map[string]any{
@@ -147,6 +155,7 @@ func main() {
 			"handler-level drive (app.Handler() on a fake connection carrying peer address and TLS flag); fasthttp request parsing is exercised as is",
 			"A: expiry is owned by the harness only through the injected fiber.Storage (virtual clock); the middleware's own time.Now() reads (cookie Expires; session-backend Token.Expiration) stay on the wall clock and never fire inside a run, so session-middleware configurations only tick by idle+1 (all storage entries expire)",
 			"A: states are deduplicated by a canonical key (model live set with relative expiries, storage contents, client-held cookies/tokens, fault-used flag) modulo renaming of generated tokens and session ids; soundness rests on the middleware treating token strings opaquely",
+			"A: redundant/conflicting configurations: 'the configured extractor' is the explicit Extractor when one is set (documentation: KeyLookup is then ignored), otherwise the KeyLookup one; 'the CSRF cookie' is the cookie in which a safe request is observed to leave the generated token (not derived from KeyLookup/CookieName by the harness); when the extractor reads that very cookie the cookie-match conjunct holds by construction",
 			"A: the reference model is deliberately generous (a token is live from generation, extended on every accepted use); the statement is an only-if for unsafe requests, so a rejection the model would allow is counted (model_allows_but_rejected), never flagged",
 			"B: reference origin predicate = RFC 6454 (scheme, lower-cased host, port with defaults) of the URL's authority; path/query/fragment/userinfo never contribute; wildcard entries require a non-empty label in front of the domain; net/url is the trusted URL parser",
 			"Origin: null is counted as unspecified (the statement does not say whether it is 'present') unless an https Referer from a foreign origin is let through",
